@@ -451,6 +451,10 @@ def judge_full(case, a, keep_going=False):
                     fails.append(("C09", "`%s` (%s): %s" % (" ".join(op)[:60], res, r), i))
                     return fails, waived
         if name == "delete" and prev_state is not None:
+            if live_before and cursor_sec and res.startswith("err:") and res != "err:PacketTooLarge":
+                # the only legitimate refusal is a first-touch decompression that would exceed the size limit
+                fails.append(("C11", "deleting the record the cursor designates failed with %s" % res[4:], i))
+                return fails, waived
             if not live_before and prev_state["k"] != "-":
                 # second delete through the same (tombstoned) cursor
                 if res != "err:VoidRecord":
@@ -532,7 +536,8 @@ def targeted(op, mb, ma, tgt):
 
 
 def walk_rules(case, a):
-    """C11 on a deletion walk: names are distinct per record (r0, r1, …)"""
+    """C11 on deletion walks (one `open` per walked section; sections may follow each other in any order):
+    names are distinct per record (r0, r1, …)"""
     init, ops = split_ops(case)
     pieces = a.split(" ; ") if a else []
     states = [parse_state(x) for x in pieces]
@@ -540,44 +545,72 @@ def walk_rules(case, a):
         return "the walk did not run to completion (%s)" % (pieces[-1][:40] if pieces else "no output")
     if any(s is None for s in states):
         return "the walk panicked"
-    sec = next(o for o in ops if o[0] == "open")[1]
-    s = {"A": 0, "N": 1, "R": 2, "O": 2, "Q": -1}[sec]
-    with_opt = sec == "O"      # the OPT-including walk: the OPT pseudo-record (root name) is an ordinary element
+    if init.startswith("empty"):
+        return None      # built from nothing: judged step by step only
     m0 = refdec.decode(_hex(init))
+    SEC = {"A": 0, "N": 1, "R": 2, "O": 2, "Q": -1}
 
     def recname(r):
         return refdec.name_text_exact(r.name).hex() or "-"
-    original = [recname(r) for r in m0.secs[s] if with_opt or r.typ != 41] if s >= 0 else [refdec.name_text_exact(m0.qname).hex()]
-    deleted = []
+
+    def content(m, s, with_opt, first):
+        if s >= 0:
+            return [recname(r) for r in m.secs[s] if with_opt or r.typ != 41]
+        if not first and getattr(m, "noq", False):
+            return []
+        return [refdec.name_text_exact(m.qname).hex()]
+    walked = []           # sections in the order they were opened
+    deleted = {}          # section letter -> names deleted
+    yielded = {}
+    sec = None
     current = None
-    yielded = []
     for i, op in enumerate(ops):
         st = states[i]
-        if op[0] == "name" and st["res"].startswith("name:"):
+        if op[0] == "open":
+            sec = op[1]
+            if sec not in walked:
+                walked.append(sec)
+                deleted[sec] = []
+                yielded[sec] = []
+            current = None
+        elif sec is None:
+            continue
+        elif op[0] == "name" and st["res"].startswith("name:"):
             current = st["res"][5:] or "-"
-            yielded.append(current)
-            if current in deleted:
+            yielded[sec].append(current)
+            if current in deleted[sec]:
                 return "record %s was yielded again after it had been deleted" % bytes.fromhex(current).decode("latin1")
         elif op[0] == "delete" and st["res"] == "ok":
             if current is None:
                 return "delete succeeded without a designated record"
-            deleted.append(current)
+            deleted[sec].append(current)
             current = None
-    survivors = [n for n in original if n not in deleted]
     mf = lax_decode(states[-1]["bytes"])
-    final = [recname(r) for r in mf.secs[s] if with_opt or r.typ != 41] if s >= 0 else ([] if getattr(mf, "noq", False) else [refdec.name_text_exact(mf.qname).hex()])
-    if final != survivors:
-        return "section holds %s after the walk, the survivors in order are %s" % (final, survivors)
-    for n in survivors:
-        if n not in yielded:
-            return "surviving record %s was never yielded" % bytes.fromhex(n).decode("latin1")
-    cnt = mf.counts[1 + s] if s >= 0 else mf.counts[0]
-    total = len(mf.secs[s]) if s >= 0 else (0 if getattr(mf, "noq", False) else 1)
-    if cnt != total:
-        return "count %d does not match the %d records present" % (cnt, total)
-    key = {"A": "an", "N": "ns", "R": "ar", "O": "ar", "Q": "q"}[sec]
-    if total == 0 and states[-1]["view"].get(key) != "-":
-        return "the emptied section does not read as absent"
-    if sec == "Q" and total == 0 and states[-1]["c"] != "-":
-        return "the question was deleted but the question accessors still report it (cached %s)" % states[-1]["c"][:60]
+    for sec in walked:
+        s = SEC[sec]
+        with_opt = sec == "O"      # the OPT-including walk: the OPT pseudo-record (root name) is an ordinary element
+        gone = deleted[sec] + (deleted.get("O", []) if sec == "R" else []) + (deleted.get("R", []) if sec == "O" else [])
+        original = content(m0, s, with_opt, True)
+        survivors = [n for n in original if n not in gone]
+        final = content(mf, s, with_opt, False)
+        if final != survivors:
+            return "section %s holds %s after the walk, the survivors in order are %s" % (sec, final, survivors)
+        for n in survivors:
+            if n not in yielded[sec]:
+                return "surviving record %s was never yielded" % bytes.fromhex(n).decode("latin1")
+        cnt = mf.counts[1 + s] if s >= 0 else mf.counts[0]
+        total = len(mf.secs[s]) if s >= 0 else (0 if getattr(mf, "noq", False) else 1)
+        if cnt != total:
+            return "count %d does not match the %d records present" % (cnt, total)
+        key = {"A": "an", "N": "ns", "R": "ar", "O": "ar", "Q": "q"}[sec]
+        if total == 0 and states[-1]["view"].get(key) != "-":
+            return "the emptied section does not read as absent"
+        if sec == "Q" and total == 0 and states[-1]["c"] != "-":
+            return "the question was deleted but the question accessors still report it (cached %s)" % states[-1]["c"][:60]
+    # sections that were not walked keep their records
+    for sec, s in (("A", 0), ("N", 1), ("R", 2)):
+        if sec in walked or (sec == "R" and "O" in walked):
+            continue
+        if content(mf, s, True, False) != content(m0, s, True, True):
+            return "section %s was not walked but its records changed" % sec
     return None
